@@ -572,6 +572,44 @@ func main() {
 			}
 		}
 	}
+	// amounts smaller than one unit, both signs, for every unit above Satoshi: the sign must
+	// survive in the text (the text is compared as an exact SIGNED rational)
+	r = rng.Fork("subunit")
+	for _, u := range units {
+		k := u + 8
+		if k <= 0 {
+			continue
+		}
+		lim := pow10i(k)
+		if k > 15 {
+			lim = capSat
+		}
+		var sub []int64
+		for j := 0; j < k && j <= 15; j++ {
+			for _, d := range []int64{1, 5, 9} {
+				if d*pow10i(j) < lim {
+					sub = append(sub, d*pow10i(j))
+				}
+			}
+		}
+		for i := 0; i < T(30, 1500); i++ {
+			sub = append(sub, 1+int64(r.U64()%uint64(lim-1)))
+		}
+		for i, a := range sub {
+			fc := 0
+			if corrOn && (i+k)%T(29, 211) == 0 {
+				fc = 1
+			}
+			format(-a, u, fc)
+			format(a, u, 0)
+			toUnit(-a, u, fc == 1)
+			if u == int(bchutil.AmountBCH) {
+				stringer(-a)
+			}
+			rep.Histogram["subunit_negative"]++
+		}
+	}
+
 	// the listed known finding's own witness, and far-away exponents for the table model of math.Pow10
 	format(2099999999999999, -9, 1)
 	toUnit(2099999999999999, -9, corrOn)
